@@ -1,4 +1,4 @@
-import Demeter.Drv.Basic
+import Demeter.Drv.Json
 import Demeter.LiqMath
 namespace Demeter.Drv
 open Demeter
@@ -29,4 +29,6 @@ def uniHandlers : List (String × Handler) := [
     let (x, y) := getAmounts cx s ta tb l d0 d1
     pure s!"{showRat x} {showRat y}")
 ]
+def uniJHandlers : List (String × JHandler) := []
+
 end Demeter.Drv
